@@ -196,13 +196,22 @@ def vol_accounting(F, S):
         co, c = linear(step[2])
         names = sorted(k[2] for k in co if k[0] == "mem")
         good = c == 11 and names == ["dataBlockOffset", "fileSize"] and all(v == 1 for v in co.values())
-    wcalls = write_calls(wf, ("var", wf.params[0]["n"], wf.params[0]["d"]))
+    # the padding write, in WriteFiles or in a helper the block body was moved into (its parameters read as the arguments)
+    from .through import find_calls
     pad_ok = False
-    for c in wcalls:
-        if len(c.get("args", [])) == 2:
-            t = wf.xterm(c["args"][1])
-            if t[0] == "op" and t[1] == "&" and t[3] == ("const", 3) and t[2][0] == "un" and t[2][1] == "-" and "fileSize" in repr(t[2][2]):
-                pad_ok = True
+    for st_ in find_calls(F, wf, lambda nd: nd["k"] == "CXXMemberCallExpr" and nd.get("fname") == "Write" and len(nd.get("args", [])) == 2
+                          and (nd.get("params") or [{}])[0].get("ptr"), depth=2):
+        t = st_.owner.xterm(st_.node["args"][1])
+        if st_.subst:
+            from .flow import substitute as _sub
+            t = _sub(t, st_.subst)
+        for _ in range(4):
+            t2 = wf.through_locals_at(t, st_.outer_id())
+            if t2 == t:
+                break
+            t = t2
+        if t[0] == "op" and t[1] == "&" and t[3] == ("const", 3) and t[2][0] == "un" and t[2][1] == "-" and "fileSize" in repr(t[2][2]):
+            pad_ok = True
     if good and pad_ok:
         out.append(ok("R-ACCT", inst, ph.loc(ph.body), ph.qn, req, "%s ; padding (-size) & 3 ; lemma R4(o + s + 8) = o + 8 + R4(s) for o = 0 mod 4" % fmt_term(step)))
     else:
